@@ -59,6 +59,11 @@ type Encoder struct {
 	// and will change every rollover event occurrence.
 	timestampReference uint32
 
+	// The timestamp a decoder holds after the messages written so far: decoders expand a compressed
+	// timestamp relative to the last timestamp they have decoded (whether it was compressed or not).
+	// Zero when it can not be told, that is never within 32 seconds of a valid timestamp.
+	lastTimestamp uint32
+
 	mesgDef proto.MessageDefinition // Temporary message definition to reduce alloc.
 
 	// Dynamic-sized buffer for encoding, starting at 1536 bytes (see PR #415 and #416 for details).
@@ -219,6 +224,7 @@ func (e *Encoder) reset() {
 	e.localMesgNumLRU.Reset()
 	e.dataSize = 0
 	e.timestampReference = 0
+	e.lastTimestamp = 0
 }
 
 // Encode encodes FIT into the dest writer. Only FIT's Messages is required, while FileHeader and CRC will be
@@ -507,7 +513,26 @@ func (e *Encoder) encodeMessage(mesg *proto.Message) (err error) {
 }
 
 func (e *Encoder) compressTimestampIntoHeader(mesg *proto.Message) (ok bool) {
-	timestamp := mesg.FieldValueByNum(proto.FieldNumTimestamp).Uint32()
+	// Only the first timestamp field can go into the header, yet a decoder takes every timestamp
+	// field it decodes (valid or not) as its last timestamp: keep track of it the same way.
+	timestamp, lastTimestamp := basetype.Uint32Invalid, e.lastTimestamp
+	first := true
+	for i := range mesg.Fields {
+		field := &mesg.Fields[i]
+		if field.Num != proto.FieldNumTimestamp {
+			continue
+		}
+		if field.Value.Type() == proto.TypeUint32 &&
+			(field.BaseType == basetype.Uint32 || field.BaseType == basetype.Uint32z) {
+			e.lastTimestamp = field.Value.Uint32()
+			if first {
+				timestamp = e.lastTimestamp
+			}
+		} else {
+			e.lastTimestamp = 0 // what a decoder makes of it depends on the decoder.
+		}
+		first = false
+	}
 	if timestamp == basetype.Uint32Invalid {
 		return false // not supported
 	}
@@ -518,7 +543,10 @@ func (e *Encoder) compressTimestampIntoHeader(mesg *proto.Message) (ok bool) {
 
 	// The 5-bit time offset rolls over every 32 seconds, it is necessary that the difference
 	// between timestamp and timestamp reference be measured less than 32 seconds apart.
-	if (timestamp - e.timestampReference) > proto.CompressedTimeMask {
+	// The decoder adds the offset to the last timestamp it has decoded, not to the reference, so
+	// the timestamp must be less than 32 seconds past that one as well (it is when time never goes back).
+	if (timestamp-e.timestampReference) > proto.CompressedTimeMask ||
+		(timestamp-lastTimestamp) > proto.CompressedTimeMask {
 		e.timestampReference = timestamp
 		return false // Rollover event occurs, keep it as it is.
 	}
